@@ -379,6 +379,19 @@ public:
     }
 };
 
+// P1: the zone character is read before the digits in front of it are known to be there
+inline int parse_hhmm(const char* str) {
+    const bool has_zone = (str[4] == 'Z');
+    if (str[0] >= '0' && str[0] <= '9' &&
+        str[1] >= '0' && str[1] <= '9' &&
+        str[2] >= '0' && str[2] <= '9' &&
+        str[3] >= '0' && str[3] <= '9' &&
+        has_zone) {
+        return (str[0] - '0') * 10 + (str[1] - '0');
+    }
+    throw std::invalid_argument{"bad time"};
+}
+
 // G6: allowed-set test missing
 inline void opl_parse_relation_members(const char* s, osmium::builder::RelationMemberListBuilder& builder) {
     const osmium::item_type type = osmium::char_to_item_type(*s);
@@ -454,6 +467,7 @@ void verif_c03_positive(osmium::io::detail::PBFPrimitiveBlockDecoder& d, osmium:
     osmium::RelationMember m;
     b.add_role(m, *p, static_cast<std::size_t>(e - *p));
     osmium::io::detail::opl_parse_relation_members("n1", b);
+    (void)osmium::io::detail::parse_hhmm(e);
     osmium::builder::UserBuilder ub;
     ub.set_user(e);
     osmium::builder::TagListBuilder t;
